@@ -19,13 +19,16 @@
      every order, the number and the sequence of the orders all reach the bytes), by the text and
      tree round-trip theorems of C17; hence `C09_tamper_content`: any accepted package whose content
      differs from the snapshotted one under the unchanged checksum is a collision of `H`.
-  `C09_partial`: "every proper prefix of the text is an error" concerns `serde_json`'s reader and is
-  decided by the run only (every truncation point of every generated package); that `render` is
-  what `serde_json::to_vec` prints is compared byte for byte on every run. Collision resistance of
-  SHA-256 is an assumption of the property itself.
+   * `C09_truncated`: every proper prefix of the text printed for a package — a torn write at any
+     offset — is rejected: it is not a JSON document at all (`parseJson_truncated`, by mutual
+     induction over the tree with the cut falling anywhere: inside a key, a number, between tokens).
+  Modelled: that `render` / `parseJson` are what `serde_json::to_vec` / `from_str` do (compared byte
+  for byte / outcome for outcome on every run, incl. every truncation point of every generated
+  package). Collision resistance of SHA-256 is an assumption of the property itself.
 -/
 import PLV.Props.C10
 import PLV.Props.C17
+import PLV.Lemmas.JsonTrunc
 
 namespace PLV.C09
 open PLV PLV.Text PLV.J
@@ -136,6 +139,30 @@ theorem C09_tamper_content (H : List UInt8 → Str) (s : Snapshot) (p' : Package
     (hck : p'.checksum = (Package.new H s).checksum) (hacc : restore H p' = .ok l)
     (hdiff : p'.snapshot ≠ s.refresh) : ∃ a b, a ≠ b ∧ H a = H b :=
   C09_tamper H s p' l hck hacc (fun e => hdiff (C09_ser_injective _ _ hs' hs e))
+
+/-- `from_snapshot_json` on a text: read the document, decode the package, pass the gate -/
+def restoreFromText (H : List UInt8 → Str) (t : Str) : Option Level := (parseJson t).bind (restoreJson H)
+
+/-- **torn writes**: every proper prefix of the serialized package is rejected, whatever the level
+    content, at every truncation point -/
+theorem C09_truncated (H : List UInt8 → Str) (p : Package) (hv : p.version < 4294967296) (hs : SnapOk p.snapshot)
+    (hck : cleanStr p.checksum = true) (t : Str) (ht : t <+: render (encPackage p)) (hne : t ≠ render (encPackage p)) :
+    restoreFromText H t = none := by
+  have hc := clean_package p hv hs hck
+  unfold restoreFromText
+  rw [show encPackage p = .obj [(lit "version", .num p.version), (lit "snapshot", encSnapshot p.snapshot),
+      (lit "checksum", .str p.checksum)] from rfl] at ht hne hc
+  rw [parseJson_truncated _ hc t ht hne]
+  rfl
+
+/-- the untouched text of a package goes through the gate of `C09_decision` -/
+theorem C09_text_route (H : List UInt8 → Str) (p : Package) (hv : p.version < 4294967296) (hs : SnapOk p.snapshot)
+    (hck : cleanStr p.checksum = true) : restoreFromText H (render (encPackage p)) =
+      (match restore H p with | .ok l => some l | .error _ => none) := by
+  unfold restoreFromText
+  rw [parseJson_render _ (clean_package p hv hs hck)]
+  simp only [Option.bind_some, restoreJson, C17.C17_package p hv hs]
+  cases restore H p <;> rfl
 
 /-- a freshly made package is accepted, and restoring it rebuilds from the refreshed content -/
 theorem C09_fresh (H : List UInt8 → Str) (s : Snapshot) :
